@@ -1116,6 +1116,8 @@ class WcParse(Generic[AnyStr]):
             if c == '[':
                 last_posix = self._handle_posix(i, result, end_range)
                 if last_posix:
+                    # A POSIX class cannot end a range (the hyphen was escaped): no range is pending anymore.
+                    end_range = 0
                     c = next(i)
                     continue
 
